@@ -18,7 +18,11 @@ def run_one(e, props):
     d = tempfile.mkdtemp(prefix="klogsa-st-")
     try:
         subprocess.run(["rsync", "-a", "--exclude", ".git", REPO + "/", d + "/"], check=True)
-        edits = e.get("edits") or [{"file": e["file"], "find": e["find"], "replace": e["replace"]}]
+        if e.get("patch"):
+            pr = subprocess.run(["patch", "-p1", "-s", "-i", os.path.join(HERE, e["patch"])], cwd=d, capture_output=True, text=True)
+            if pr.returncode != 0:
+                return dict(id=e["id"], status="inconclusive", detail="patch does not apply: " + pr.stdout[-200:])
+        edits = [] if e.get("patch") else (e.get("edits") or [{"file": e["file"], "find": e["find"], "replace": e["replace"]}])
         for ed in edits:
             path = os.path.join(d, ed["file"])
             src = open(path).read()
